@@ -17,7 +17,9 @@ PKG=$(grep -ho "\-p [a-z_]*" $OUT/demo/README* 2>/dev/null | head -1 | cut -d' '
 FEAT=$(grep -ho "\-\-features [a-z_,]*" $OUT/demo/README* 2>/dev/null | head -1); 
 # a demo may need the framework's own verification hooks (cfg flag) - only the demo runs get it, the suite runs with the guard off
 DEMOFLAGS=""; if grep -q "cfg star_frame_verif" $OUT/demo/README* 2>/dev/null; then DEMOFLAGS="--cfg star_frame_verif"; fi
-mkdir -p $WT/$PKG/tests; cp $DEMO $WT/$PKG/tests/$DEMONAME.rs
+# the crate's directory: <worktree>/<package>, or wherever the manifest of that package lives (example programs)
+PKGDIR=$PKG; if [ ! -f $WT/$PKG/Cargo.toml ]; then M=$(grep -l "^name = \"$PKG\"" $(find $WT -maxdepth 3 -name Cargo.toml -not -path "*/target/*") 2>/dev/null | head -1); [ -n "$M" ] && PKGDIR=$(dirname ${M#$WT/}); fi
+mkdir -p $WT/$PKGDIR/tests; cp $DEMO $WT/$PKGDIR/tests/$DEMONAME.rs
 echo "== demo WITH the change" >> $LOG
 git -C $WT diff --stat >> $LOG
 RUSTFLAGS="$DEMOFLAGS" cargo test -p $PKG $FEAT --test $DEMONAME --offline >> $LOG 2>&1; WITH=$?
@@ -26,7 +28,7 @@ echo "== demo WITHOUT the change" >> $LOG
 git -C $WT diff > $DST/.wt.diff; git -C $WT apply -R $DST/.wt.diff; RUSTFLAGS="$DEMOFLAGS" cargo test -p $PKG $FEAT --test $DEMONAME --offline >> $LOG 2>&1; WITHOUT=$?; git -C $WT apply $DST/.wt.diff
 if ! diff -q <(git -C $WT diff) $OUT/patch.diff > /dev/null; then echo "NOTE: the worktree diff differs textually from out/patch.diff (kept: the worktree's)" >> $LOG; git -C $WT diff > $DST/patch.diff; fi
 rm -f $DST/.wt.diff
-rm -f $WT/$PKG/tests/$DEMONAME.rs
+rm -f $WT/$PKGDIR/tests/$DEMONAME.rs
 echo "== repository suite WITH the change" >> $LOG
 cargo test --workspace --no-fail-fast --offline 2>&1 | grep -E "^test result|FAILED|failed" | sort | uniq -c > $DST/suite.log; cat $DST/suite.log >> $LOG
 SUITE_FAILS=$(grep -c "FAILED\|[1-9][0-9]* failed" $DST/suite.log); rm -f $DST/suite.log
